@@ -29,7 +29,8 @@ LEVEL_NOTE = ("fake API channel (backlog kept far below RECEIVER_MAX_SIZE); the 
               "harness lets the loop go idle; otherwise contiguity from the observed start is asserted")
 RULE = ("seeded schedules; distinct = canonical schedule JSON; non-trivial = >=2 subscriptions arriving at different "
         "message indices (i.e. >=1 hand-over while an existing stream is live)")
-REQUIRED_BUCKETS = ["kind:meter", "kind:inverter", "kind:battery", "kind:ev", "kind:pipeline", "pipeline-burst>50", "subscription-before-first-message",
+REQUIRED_BUCKETS = ["requests-that-differ-only-in-start-time",
+                    "kind:meter", "kind:inverter", "kind:battery", "kind:ev", "kind:pipeline", "pipeline-burst>50", "subscription-before-first-message",
                     "subscription-between-messages", "back-to-back-requests", "duplicate-request",
                     "unknown-component-request", "hand-over-with-live-stream", "two-namespaces-same-metric"]
 REQUIRED_COUNTERS = ["streams_checked", "samples_checked", "schedules_run"]
